@@ -347,7 +347,7 @@ class C01(MotionMonitor):
                    "arcs are classified on the sample points observed at planArc (faithfulness is C16)",
                    "decisions closer than 1e-7 mm to a border are truncated, except in the exact-border class"]
     classes = [(3, "abs-mm", mk(arcs=True)), (2, "rel-inch", mk(rel=True, inch=True, arcs=True)),
-               (2, "firmware", mk(fw=True, arcs=True)), (2, "at-commands", mk(at=True, arcs=True, rel=True)),
+               (2, "firmware", mk(fw=True, arcs=True)), (2, "at-commands", mk(at=True, arcs=True, rel=True, p_at=0.07, p_inside=0.5)),
                (2, "region-additions", mk(addregion=True, arcs=True, arcs_rel=True, rel=True, at=True)),
                (2, "everything", mk(rel=True, inch=True, arcs=True, at=True, addregion=True, g28mid=True, retmove=True,
                                     spell=True, g92e_retracted=True)),
